@@ -125,7 +125,7 @@ package cff
 // what the i-th emitter's Init returned for the caller's arguments.
 
 //@ func (emitterStack).TaskInit
-//@   option fresh-result-slice=[C18]
+//@   option fresh-result-slice=[C18,C12]
 //@   ghost ncall int = 0
 //@   ghost rets map[int]int
 //@   loop 1 invariant [C18] prefix-initialised: ncall == idx1 && 0 <= idx1 && idx1 <= len(es) && len(emitters) == idx1 && forall(i, int, implies(0 <= i && i < idx1, emitters[i] == rets[i]))
@@ -135,7 +135,7 @@ package cff
 //@   ensures [C18] result-is-stack-of-inits: ncall == len(es) && len(sliceof(result)) == len(es) && forall(i, int, implies(0 <= i && i < len(es), sliceof(result)[i] == rets[i]))
 
 //@ func (emitterStack).FlowInit
-//@   option fresh-result-slice=[C18]
+//@   option fresh-result-slice=[C18,C12]
 //@   ghost ncall int = 0
 //@   ghost rets map[int]int
 //@   loop 1 invariant [C18] prefix-initialised: ncall == idx1 && 0 <= idx1 && idx1 <= len(es) && len(emitters) == idx1 && forall(i, int, implies(0 <= i && i < idx1, emitters[i] == rets[i]))
@@ -145,7 +145,7 @@ package cff
 //@   ensures [C18] result-is-stack-of-inits: ncall == len(es) && len(sliceof(result)) == len(es) && forall(i, int, implies(0 <= i && i < len(es), sliceof(result)[i] == rets[i]))
 
 //@ func (emitterStack).ParallelInit
-//@   option fresh-result-slice=[C18]
+//@   option fresh-result-slice=[C18,C12]
 //@   ghost ncall int = 0
 //@   ghost rets map[int]int
 //@   loop 1 invariant [C18] prefix-initialised: ncall == idx1 && 0 <= idx1 && idx1 <= len(es) && len(emitters) == idx1 && forall(i, int, implies(0 <= i && i < idx1, emitters[i] == rets[i]))
@@ -155,7 +155,7 @@ package cff
 //@   ensures [C18] result-is-stack-of-inits: ncall == len(es) && len(sliceof(result)) == len(es) && forall(i, int, implies(0 <= i && i < len(es), sliceof(result)[i] == rets[i]))
 
 //@ func (emitterStack).SchedulerInit
-//@   option fresh-result-slice=[C18]
+//@   option fresh-result-slice=[C18,C12]
 //@   ghost ncall int = 0
 //@   ghost rets map[int]int
 //@   loop 1 invariant [C18] prefix-initialised: ncall == idx1 && 0 <= idx1 && idx1 <= len(es) && len(emitters) == len(es) && forall(i, int, implies(0 <= i && i < idx1, emitters[i] == rets[i]))
@@ -177,7 +177,7 @@ package cff
 //@     implies(typeof(emitters[i]) != typeid($ES), pos[i+1] == pos[i] + 1 && stack[pos[i]] == emitters[i])))
 
 //@ func EmitterStack
-//@   option fresh-result-slice=[C18]
+//@   option fresh-result-slice=[C18,C12]
 //@   ghost pos map[int]int
 //@   ghost nop ref = 0
 //@   at call NopEmitter 1 ghost nop = ret
